@@ -63,7 +63,7 @@ end
 
 /-- The `(width, signed)` the Verilog text assigns an expression to when it is the right-hand side of an
     assignment to a `lw`-bit target, compared with what `Evaluator.assign` stores: bits of the stored value. -/
-def assignF (ρ : Env) (lw : Nat) (e : Expr) : Int := tn lw (evalF ρ e)
+def storeF (ρ : Env) (lw : Nat) (e : Expr) : Int := tn lw (evalF ρ e)
 
 /-! ### Side conditions of the printer (first stage: printed text read over unbounded integers = `evalF`) -/
 
